@@ -33,8 +33,8 @@ var c28MustReviewed = map[string]string{
 }
 
 func checkC28(r *Run) {
-	r.Explain = "C28: (R1) nil contract over the whole module: every function that can return (nil pointer, nil error) — found by scanning returns, propagated through tail calls and interfaces (CHA) — is enumerated, and every dereference of such a result must be dominated by a nil test, be impossible because nil is returned only for a nil argument and the site passes an address, or be in the reviewed table; (R2) no explicit panic / log.Panic / Fatal statement in the HTTP handler layer (package api); panic statements reachable deeper (VTA) are counted and reported, not decided; (R3) every slice/index expression in package api is in bounds (difference-bound reasoning) or in the reviewed table; (R4) every call from package api into a helper that itself contains an explicit panic (Must-style) is a reviewed (caller, callee) pair whose panic cannot be driven by a request; (R5) package api has no unchecked type assertion and no integer division by a value not shown non-zero."
-	r.NotDec = "hangs, dropped connections not caused by panics; the 140-odd invariant panics below the handler layer (crypto length preconditions, visor invariants) are reported in evidence, not discharged; run-time panics from nil-map writes; type assertions and divisions below the handler layer"
+	r.Explain = "C28: (R1) nil contract over the whole module: every function that can return (nil pointer, nil error) — found by scanning returns, propagated through tail calls and interfaces (CHA) — is enumerated, and every dereference of such a result must be dominated by a nil test, be impossible because nil is returned only for a nil argument and the site passes an address, or be in the reviewed table; (R2) no explicit panic / log.Panic / Fatal statement in the HTTP handler layer (package api); panic statements reachable deeper (VTA) are counted and reported, not decided; (R3) every slice/index expression in package api is in bounds (difference-bound reasoning) or in the reviewed table; (R4) every call from package api into a helper that itself contains an explicit panic (Must-style) is a reviewed (caller, callee) pair whose panic cannot be driven by a request; (R6) every mutex Lock/RLock in a function reachable (VTA) from a handler is released on every path to an exit of that function (deferred or explicit unlock on the same receiver); (R5) package api has no unchecked type assertion and no integer division by a value not shown non-zero."
+	r.NotDec = "hangs other than leaked mutexes (channel waits, slow operations), dropped connections not caused by panics; the 140-odd invariant panics below the handler layer (crypto length preconditions, visor invariants) are reported in evidence, not discharged; run-time panics from nil-map writes; type assertions and divisions below the handler layer"
 	sites, nCalls, prods := r.P.NilContractSites()
 	r.Units["(nil,nil) producers"] = len(prods)
 	r.Units["call sites of producers"] = nCalls
@@ -200,6 +200,22 @@ func checkC28(r *Run) {
 			}
 		}
 	}
+	// R6: a request that leaves a mutex locked makes later requests hang: every Lock/RLock in a function
+	// reachable from a handler is released on every path to an exit of that function
+	parent := reachableFrom(r.P.VTA(), roots, func(f *ssa.Function) bool { return !InModule(f) })
+	nLocks := 0
+	for _, fn := range r.P.ModFns {
+		if _, ok := parent[fn]; !ok {
+			continue
+		}
+		n, leaks := r.P.lockBalance(fn)
+		nLocks += n
+		for _, l := range leaks {
+			r.Check("C28-R6", FnName(fn)+": "+l.Kind+" of "+l.Recv+" on every exit", r.P.Pos(l.Lock.Pos()), false, "the lock taken here is still held at the return at "+r.P.Pos(l.Exit)+": the next writer (and every request behind it) blocks for ever")
+		}
+	}
+	r.Units["lock acquisitions in handler-reachable functions"] = nLocks
+	r.Check("C28-R6", "every lock acquired on a request path is released on all exits of the acquiring function", "", nLocks >= 30, fmt.Sprintf("%d acquisitions checked", nLocks))
 	r.Units["unchecked type assertions in package api"] = nTA
 	r.Units["non-constant integer divisions in package api"] = nDiv
 	r.Pass("C28-R5", "package api scanned for unchecked type assertions and divisions", "", fmt.Sprintf("%d assertions, %d divisions", nTA, nDiv))
